@@ -1,46 +1,51 @@
 """C04 — overrides mean edit-the-cell-and-recalculate; the last write wins.
 
-E1 on the real Executor (set_cells / get_cell, handle_cell, Cell) over the class emitted by the real Parser for one
-two-sheet workbook.  Oracle = the *edited workbook*: for every set P of override targets the workbook is re-translated
+E2 (z3-enumerated bounded exploration, native execution; E1/CrossHair was measured at 0.3-1 s per path here because the
+Executor hashes every value, which forces realisation) on the real Executor (set_cells / get_cell, handle_cell, Cell) over the class emitted by the real Parser for one
+three-sheet workbook.  Oracle = the *edited workbook*: for every set P of override targets the workbook is re-translated
 by the real Parser with placeholder constants at P; the reference value of a query is that class evaluated with the
 last-write map passed directly as arguments."""
 import itertools
 
-from vlib.e1 import Suite
+import time
+
+import z3
+
+from vlib import NCPU, e2, findings
 
 LEVEL = 'other'
-EXPLANATION = ('Bounded symbolic execution (CrossHair/z3) of the real Executor.set_cells/get_cell/handle_cell/Cell over the class the real '
-               'Parser emits for a two-sheet workbook (constants, formulas, a formula whose evaluation fails, a blank inside the used range, '
-               'a whole-column reference, cross-sheet references). Symbolic: the history of override batches (targets among 7 positions incl. '
+EXPLANATION = ('Bounded exhaustive exploration, enumerated by z3 (DFS with blocking constraints over the history variables; engine E2) and executed natively, of the real Executor.set_cells/get_cell/handle_cell/Cell over the class the real '
+               'Parser emits for a three-sheet workbook (constants, formulas, a formula whose evaluation fails, a blank inside the used range, '
+               'a whole-column reference, cross-sheet references). Explored: the history of override batches (targets among 7 positions incl. '
                'blank, beyond-used-range and other-sheet cells, int values, numeric or A1-style addressing) and the queried cell. Oracle: the '
                'workbook re-translated by the real Parser with constants at the overridden positions ("edit and recalculate"), evaluated with '
                'the last-write map.')
-RULE = ('one condition per (first target, history shape); non-trivial = confirmed over all paths with a refuted vacuity twin, or a replay-confirmed '
-        'counterexample')
+RULE = ('one job per (history shape, first target); a case = one complete history + query; distinct_nontrivial counts jobs whose whole sub-space '
+        'was closed without truncation')
 
 PRE = r'''
 from typing import List, Tuple, Optional, Union
 import itertools
 from vlib import build
 from excel2pycl import Executor, Cell
-from crosshair import realize
 
 S = {'A1': 1, 'A2': 2, 'A4': 4, 'B1': '=A1+A2', 'B2': '=SUM(A1:A4)', 'B3': '=1/A1', 'B4': '=B1*2', 'C1': '=SUM(A:A)', 'C2': '=T!A1+A1',
-     'C3': '=IF(A3=0,B3,7)', 'C4': '=SUM(A1:A6)', 'D1': '=E1+1'}
+     'C3': '=IF(A3=0,B3,7)', 'C4': '=SUM(A1:A6)', 'D1': '=E1+1', 'D2': '=DAY(TODAY())+A1'}
 T = {'A1': 10, 'B1': '=S!B1+A1'}
-TITLES = ['S', 'T']
+N1 = {'A1': 100, 'B1': '=A1+1'}          # a sheet whose title is all digits and differs from its position
+TITLES = ['S', 'T', '1']
 # override targets: (sheet index, A1 address, kind)
 TARGETS = [(0, 'A1', 'constant'), (0, 'B1', 'formula'), (0, 'B3', 'failing formula'), (0, 'A3', 'blank in used range'),
-           (0, 'A6', 'below used range'), (0, 'E1', 'right of used range'), (1, 'A1', 'other sheet constant')]
+           (0, 'A6', 'below used range'), (0, 'E1', 'right of used range'), (1, 'A1', 'other sheet constant'), (2, 'A1', 'constant on the digit-titled sheet')]
 QUERY = [(0, 'A1'), (0, 'A3'), (0, 'B1'), (0, 'B2'), (0, 'B3'), (0, 'B4'), (0, 'C1'), (0, 'C2'), (0, 'C3'), (0, 'C4'), (0, 'D1'),
-         (0, 'A6'), (0, 'E1'), (1, 'A1'), (1, 'B1')]
+         (0, 'A6'), (0, 'E1'), (1, 'A1'), (1, 'B1'), (2, 'A1'), (2, 'B1'), (0, 'D2')]
 
 def sheets(edit=()):
-    s, t = dict(S), dict(T)
+    s, t, n1 = dict(S), dict(T), dict(N1)
     for ti in edit:
         si, a, _ = TARGETS[ti]
-        (s if si == 0 else t)[a] = 0          # placeholder constant: the cell now holds a constant
-    return [('S', s), ('T', t)]
+        (s, t, n1)[si][a] = 0          # placeholder constant: the cell now holds a constant
+    return [('S', s), ('T', t), ('1', n1)]
 
 TRANSLATE_ERRORS = []
 KE = {}
@@ -75,6 +80,38 @@ def reference(lastmap, qi):
     si, a = QUERY[qi]
     return outcome(lambda: KE[P](args).exec_function_in(uid(si, a)))
 
+FAM = [0, 1, 2, True, False, '', 'txt', 0.0]       # override values: ints, equal-valued values of other types, falsy values, text
+
+def history2(t1, v1, t2, v2, style, onebatch, q0, q):
+    """two writes (possibly to the same cell), optionally in one batch, optionally a query in between; then one query"""
+    ex = Executor().set_executed_class(class_object=K)
+    c1 = mkcell(TARGETS[t1][0], TARGETS[t1][1], bool(style), FAM[v1])
+    c2 = mkcell(TARGETS[t2][0], TARGETS[t2][1], not style, FAM[v2])
+    if onebatch:
+        ex.set_cells([c1, c2])
+    else:
+        ex.set_cells([c1])
+        if q0:
+            outcome(lambda: ex.get_cell(mkcell(QUERY[8][0], QUERY[8][1], False)).value)
+        ex.set_cells([c2])
+    last = {t1: FAM[v1]}
+    last[t2] = FAM[v2]
+    got = outcome(lambda: ex.get_cell(mkcell(QUERY[q][0], QUERY[q][1], bool(style))).value)
+    ref = reference(last, q)
+    return None if same(got, ref) else f'executor gives {got}, the edited workbook gives {ref}'
+
+def history3(t1, v1, v2, v3, q):
+    """the same cell written twice inside one batch and once more later"""
+    ex = Executor().set_executed_class(class_object=K)
+    ex.set_cells([mkcell(TARGETS[t1][0], TARGETS[t1][1], False, FAM[v1]), mkcell(TARGETS[t1][0], TARGETS[t1][1], True, FAM[v2])])
+    got2 = outcome(lambda: ex.get_cell(mkcell(QUERY[q][0], QUERY[q][1], False)).value)
+    ex.set_cells([mkcell(TARGETS[t1][0], TARGETS[t1][1], False, FAM[v3])])
+    got3 = outcome(lambda: ex.get_cell(mkcell(QUERY[q][0], QUERY[q][1], False)).value)
+    r2, r3 = reference({t1: FAM[v2]}, q), reference({t1: FAM[v3]}, q)
+    if not same(got2, r2):
+        return f'after the batch: executor gives {got2}, the edited workbook gives {r2}'
+    return None if same(got3, r3) else f'after the third write: executor gives {got3}, the edited workbook gives {r3}'
+
 def same(x, y):
     if x[0] != y[0]:
         return False
@@ -84,75 +121,108 @@ def same(x, y):
 '''
 
 
+NS = {}
+H2 = ['v1', 't2', 'v2', 'style', 'onebatch', 'q0', 'q']
+H3 = ['v1', 'v2', 'v3', 'q']
+
+
+def _known(kfs):
+    def is_known(out):
+        for i, e in enumerate(kfs):
+            try:
+                if eval(e['region'], {}, dict(out['vars'])):
+                    return f'kf{i}'
+            except Exception:
+                pass
+        return None
+    return is_known
+
+
+def _job2(t1, kfs, timeout):
+    fn, nT, nQ, nF = NS['history2'], len(NS['TARGETS']), len(NS['QUERY']), len(NS['FAM'])
+
+    def run(ex):
+        v1, t2, v2, style, onebatch, q0, q = z3.Ints(' '.join(H2))
+        ex.assume(z3.And(v1 >= 0, v1 <= 1, t2 >= 0, t2 < nT, v2 >= 0, v2 < nF, style >= 0, style <= 1, onebatch >= 0, onebatch <= 1,
+                         q0 >= 0, q0 <= 1, z3.Implies(onebatch == 1, q0 == 0), q >= 0, q < nQ))
+        vals = [ex.concretize(x) for x in (v1, t2, v2, style, onebatch, q0, q)]
+        try:
+            out = fn(t1, vals[0], vals[1], vals[2], vals[3], vals[4], vals[5], vals[6])
+        except Exception as e:
+            out = f'harness exception {type(e).__name__}: {e}'
+        return None if out is None else dict(vars=dict(zip(['t1'] + H2, [t1] + vals)), why=out)
+    return e2.explore(run, timeout=timeout, is_known=_known(kfs))
+
+
+def _job3(t1, kfs, timeout):
+    fn, nQ, nF = NS['history3'], len(NS['QUERY']), len(NS['FAM'])
+
+    def run(ex):
+        v1, v2, v3, q = z3.Ints(' '.join(H3))
+        ex.assume(z3.And(v1 >= 0, v1 < nF, v2 >= 0, v2 < nF, v3 >= 0, v3 < nF, q >= 0, q < nQ))
+        vals = [ex.concretize(x) for x in (v1, v2, v3, q)]
+        try:
+            out = fn(t1, *vals)
+        except Exception as e:
+            out = f'harness exception {type(e).__name__}: {e}'
+        return None if out is None else dict(vars=dict(zip(['t1'] + H3, [t1] + vals)), why=out)
+    return e2.explore(run, timeout=timeout, is_known=_known(kfs))
+
+
 def run(report, tier, seed):
-    T = 120 if tier == 'quick' else 400
-    s = Suite('C04', 'overrides', PRE, timeout=T)
-    enc = ('Executor.set_cells', 'Executor._set_cells_to_executed_instance', 'Executor.get_cell', 'Executor.set_executed_class', 'handle_cell',
-           'Cell.uid/__hash__/to_dict', 'ExcelInPython.set_arguments', 'ExcelInPython._cell_preprocessor', 'ExcelInPython.exec_function_in')
-    nT = 7
-    nQ = 'len(QUERY)'
-    for t1 in range(nT):
-        # one write, any query: override == edit-and-recalculate
-        s.add(f'one_write_t{t1}', 'v: int, style: bool, q: int', f'0 <= q < {nQ} and -1 <= v <= 2', f"""
-            v = realize(v)
-            ex = Executor().set_executed_class(class_object=K)
-            ex.set_cells([mkcell(TARGETS[{t1}][0], TARGETS[{t1}][1], style, v)])
-            got = outcome(lambda: ex.get_cell(mkcell(QUERY[q][0], QUERY[q][1], False)).value)
-            return same(got, reference({{{t1}: v}}, q))
-        """, encodes=enc, requires='K is not None')
-        # the same cell written twice inside ONE batch and once more later
-        s.add(f'same_cell_thrice_t{t1}', 'v1: int, v2: int, v3: int, q: int', f'0 <= q < {nQ} and 0 <= v1 <= 1 and (v2 == 0 or v2 == 2) and v3 == 3', f"""
-            v1, v2, v3 = realize(v1), realize(v2), realize(v3)
-            ex = Executor().set_executed_class(class_object=K)
-            ex.set_cells([mkcell(TARGETS[{t1}][0], TARGETS[{t1}][1], False, v1), mkcell(TARGETS[{t1}][0], TARGETS[{t1}][1], True, v2)])
-            got2 = outcome(lambda: ex.get_cell(mkcell(QUERY[q][0], QUERY[q][1], False)).value)
-            ex.set_cells([mkcell(TARGETS[{t1}][0], TARGETS[{t1}][1], False, v3)])
-            got3 = outcome(lambda: ex.get_cell(mkcell(QUERY[q][0], QUERY[q][1], False)).value)
-            return same(got2, reference({{{t1}: v2}}, q)) and same(got3, reference({{{t1}: v3}}, q))
-        """, encodes=enc, requires='K is not None', timeout=T * 2)
-        # values of other types: text, bool and zero-like values (falsy overrides must be honoured)
-        s.add(f'falsy_and_text_overrides_t{t1}', 'which: int, q: int', f'0 <= which < 5 and 0 <= q < {nQ}', f"""
-            which = realize(which)
-            v = [0, '', False, 'txt', 0.0][which]
-            ex = Executor().set_executed_class(class_object=K)
-            ex.set_cells([mkcell(TARGETS[{t1}][0], TARGETS[{t1}][1], False, v)])
-            got = outcome(lambda: ex.get_cell(mkcell(QUERY[q][0], QUERY[q][1], False)).value)
-            return same(got, reference({{{t1}: v}}, q))
-        """, encodes=enc, requires='K is not None', timeout=T * 2)
-        for t2 in range(nT):
-            # two writes in two batches (possibly the same cell): last write wins
-            s.add(f'two_batches_t{t1}_t{t2}', 'v1: int, v2: int, q: int', f'0 <= q < {nQ} and 0 <= v1 <= 1 and (v2 == 0 or v2 == 2)', f"""
-                v1, v2 = realize(v1), realize(v2)
-                ex = Executor().set_executed_class(class_object=K)
-                ex.set_cells([mkcell(TARGETS[{t1}][0], TARGETS[{t1}][1], False, v1)])
-                ex.set_cells([mkcell(TARGETS[{t2}][0], TARGETS[{t2}][1], True, v2)])
-                last = {{{t1}: v1}}
-                last[{t2}] = v2
-                got = outcome(lambda: ex.get_cell(mkcell(QUERY[q][0], QUERY[q][1], False)).value)
-                return same(got, reference(last, q))
-            """, encodes=enc, requires='K is not None', timeout=T * 2)
-        for t2 in sorted({t1, (t1 + 3) % nT, 2}):
-            # a query between the two batches (the first query must not freeze anything)
-            s.add(f'write_query_write_t{t1}_t{t2}', 'v1: int, q0: bool, q: int', f'0 <= q < {nQ} and 0 <= v1 <= 1', f"""
-                v1 = realize(v1)
-                ex = Executor().set_executed_class(class_object=K)
-                ex.set_cells([mkcell(TARGETS[{t1}][0], TARGETS[{t1}][1], False, v1)])
-                outcome(lambda: ex.get_cell(mkcell(QUERY[3 if q0 else 8][0], QUERY[3 if q0 else 8][1], False)).value)
-                ex.set_cells([mkcell(TARGETS[{t2}][0], TARGETS[{t2}][1], False, 5)])
-                last = {{{t1}: v1}}
-                last[{t2}] = 5
-                got = outcome(lambda: ex.get_cell(mkcell(QUERY[q][0], QUERY[q][1], False)).value)
-                return same(got, reference(last, q))
-            """, encodes=enc, requires='K is not None', timeout=T * 2)
-    report.bound('workbook: 2 sheets, 14 cells; 7 override targets (constant, formula, failing formula, blank in range, below / right of used range, '
-                 'other sheet); histories: 1 write, 2 batches (second target symbolic), write-query-write, same cell written three times (two in one '
-                 'batch); values symbolic ints in small ranges (the engine realises a value when Cell.__hash__ hashes it, so wide ranges only multiply paths) (+ a 5-value family of falsy/text values); queried cell symbolic over 15 cells')
+    exec(compile(PRE, '<c04-pre>', 'exec'), NS)
+    for f, err in NS['TRANSLATE_ERRORS']:
+        report.condition('translate:' + f, 'concrete', 'violated', detail=err)
+        report.violation('translate', f, err)
+    if NS.get('K') is None:
+        return
+    to = 300 if tier == 'quick' else 1500
+    jobs = []
+    kf_of = {}
+    for t1 in range(len(NS['TARGETS'])):
+        for shape, fn in (('history2', _job2), ('history3', _job3)):
+            name = f'{shape}_t{t1}'
+            kf_of[name] = findings.for_harness('C04', name)
+            jobs.append((name, fn, (t1, kf_of[name], to)))
+    res = e2.run_jobs(jobs, NCPU, deadline=to * 2 + 60)
+    total = 0
+    for name, r in res.items():
+        cname = 'overrides.' + name
+        if 'error' in r:
+            report.condition(cname, 'E2', 'inconclusive', detail=r['error'])
+            continue
+        total += r['paths']
+        report.queries += r['queries']
+        for label, (cnt, first) in r.get('known', {}).items():
+            e = kf_of[name][int(label[2:])]
+            report.condition(cname + '#' + label, 'E2', 'known', 0, cnt, e.get('what', ''))
+            report.known_finding(f'harness={cname} histories_in_region={cnt} first={first["vars"]} :: {e.get("what", "")}', key=e.get('what'))
+        if r['failures']:
+            f, model = r['failures'][0]
+            v = f['vars']
+            again = (NS['history2'](*[v[k] for k in ['t1'] + H2]) if name.startswith('history2') else NS['history3'](*[v[k] for k in ['t1'] + H3]))
+            if again is not None:
+                report.condition(cname, 'E2', 'violated', r['secs'], r['paths'], f['why'])
+                report.violation(cname, f'{name.split("_")[0]}({v})', again)
+            else:
+                report.condition(cname, 'E2', 'spurious', r['secs'], r['paths'], f['why'])
+        elif r['complete']:
+            report.condition(cname, 'E2', 'holds', r['secs'], r['paths'], 'all histories of the sub-space closed')
+            report.sample(dict(job=cname, histories=r['paths'], z3_queries=r['queries'], solver_s=r['solver_s'], secs=r['secs']))
+        else:
+            report.condition(cname, 'E2', 'inconclusive', r['secs'], r['paths'], 'time budget hit before the sub-space was closed')
+    report.extra['histories_explored'] = total
+    report.encoded('Executor.set_cells', 'Executor._set_cells_to_executed_instance', 'Executor.get_cell', 'Executor.set_executed_class', 'handle_cell',
+                   'Cell.uid/__hash__/to_dict', 'ExcelInPython.set_arguments', 'ExcelInPython._cell_preprocessor', 'ExcelInPython.exec_function_in')
+    report.bound('workbook: 3 sheets (one titled "1" at index 2), 17 cells; 8 override targets (constant, formula, failing formula, blank in range, below / '
+                 'right of used range, other sheet, digit-titled sheet); history2: two writes (second target any of 8, values from an 8-value family incl. '
+                 '1/True/0/False/""/0.0/text, numeric and A1+title addressing, same batch or two batches, optional query in between) then a query of any '
+                 'of 18 cells; history3: one cell written twice in one batch and once more, all value triples. All enumerated.')
     report.assume('the reference is the workbook re-translated by the real Parser with a placeholder constant at each overridden position and evaluated '
                   'with the last-write map passed directly to the generated class (so set_arguments/_cell_preprocessor for *constant* cells is trusted)',
-                  'set iteration order: the engine observes the order of the running interpreter only',
-                  'outside the claim: histories longer than 3 writes, override values of other types, concurrency')
-    s.run(report)
-    s.report_translate_errors(report)
+                  'the solver enumerates the finite history space (every value is hashed by the code under test, so nothing can stay symbolic); each '
+                  'history runs natively on the real code; set iteration order: only the order of the running interpreter is observed',
+                  'outside the claim: histories longer than 3 writes, override values outside the family, concurrency')
 
 
 def replay(rp):
